@@ -543,6 +543,9 @@ class Evaluator:
                 return self._class_namespace(b)
             if e.id in ('frozenset', 'tuple', 'list', 'dict', 'set', 'bool', 'bytes'):
                 return {'frozenset': frozenset, 'tuple': tuple, 'list': list, 'dict': dict, 'set': set, 'bool': bool, 'bytes': bytes}[e.id]
+            if e.id in ('int', 'float', 'str', 'bool', 'len', 'list', 'tuple', 'dict', 'set', 'frozenset', 'bytes', 'sorted', 'min', 'max', 'abs', 'repr', 'ord', 'chr'):
+                return {'int': int, 'float': float, 'str': str, 'bool': bool, 'len': len, 'list': list, 'tuple': tuple, 'dict': dict, 'set': set, 'frozenset': frozenset, 'bytes': bytes, 'sorted': sorted,
+                        'min': min, 'max': max, 'abs': abs, 'repr': repr, 'ord': ord, 'chr': chr}[e.id]  # a built-in used as a value (conv = float if ... else int)
             raise AnalysisError(f'unknown name {e.id} in decision procedure')
         if isinstance(e, ast.Tuple):
             return tuple(self.expr(x, env) for x in e.elts)
